@@ -5,5 +5,5 @@ PATCH="$1"; ID="$2"; TIER="${3:-quick}"
 if [ -n "$(git -C /repo status --porcelain --untracked-files=no)" ]; then echo "/repo is dirty, refusing" >&2; exit 3; fi
 git -C /repo apply "$PATCH" || { echo "patch does not apply" >&2; exit 3; }
 trap 'git -C /repo checkout -- . ' EXIT
-cd /verif && ./check "$ID" "$TIER" 2>&1 | grep -E "^(VIOLATION|KNOWN|C[0-9]+ |BUILD|INCONCL|  stage)" | head -12
+cd /verif && timeout 900 ./check "$ID" "$TIER" 2>&1 | grep -E "^(VIOLATION|KNOWN|C[0-9]+ |BUILD|INCONCL|  stage)" | head -12
 echo "exit=${PIPESTATUS[0]}"
